@@ -119,17 +119,25 @@ def run(ctx):
                 gocmds.append({"op": "newobj", "id": "%s/%s" % (u["pkg"], obj), "type": "%s.%s" % (u["pkg"], obj)})
             if u.get("py") == "ok" and obj in u.get("py_classes", []):
                 pycmds.append({"op": "default", "id": "%s/%s" % (u["pkg"], obj), "module": u["pkg"], "cls": obj})
+            elif u.get("py") == "ok" and "." in obj:
+                # an object of the unit's SECOND package ("x.Name": models/<pkg>x.py); Go reaches it through the objects that refer to it
+                pycmds.append({"op": "default", "id": "%s/%s" % (u["pkg"], obj), "module": u["pkg"] + obj.split(".", 1)[0], "cls": obj.split(".", 1)[1]})
             if pc.default_doc(sc.defs_of(schema), sc.defs_of(schema)[obj]):
                 # a second construction after the collections of a first instance were mutated in place: defaults are not shared
                 if u["status"] == "ok" and obj in u.get("constructors", []):
                     gocmds.append({"op": "newobj2", "id": "%s/%s#2" % (u["pkg"], obj), "type": "%s.%s" % (u["pkg"], obj)})
                 if u.get("py") == "ok" and obj in u.get("py_classes", []):
                     pycmds.append({"op": "default2", "id": "%s/%s#2" % (u["pkg"], obj), "module": u["pkg"], "cls": obj})
-    gores = sc.run_driver(ctx, batch, gocmds, "new") if gocmds else {}
-    pyres = pc.run_pydriver(ctx, batch, pycmds, "default") if pycmds else {}
+    gores = pc.run_driver_safe(ctx, batch, gocmds, "new") if gocmds else {}
+    pyres = pc.run_pydriver_safe(ctx, batch, pycmds, "default") if pycmds else {}
 
     # ---- join
     tw = pc.PyTraceWriter(ctx, batch, "c10")
+    soft = []           # reasons that make the run inconclusive unless violations were observed (pc.settle)
+    if getattr(batch, "python_unusable", None):
+        soft.append(batch.python_unusable)
+    if getattr(batch, "go_unusable", None):
+        soft.append("Go side unusable: " + batch.go_unusable)
     order = []          # (pkg, obj, go, py, python verdict set)
     second = {}         # (pkg, obj) -> (go2, py2, paths that fail only in the second construction)
     dropped = collections.Counter()
@@ -216,8 +224,8 @@ def run(ctx):
     for i, (pkg, obj, go, py, verdict) in enumerate(order):
         tv = tlc_viol.get(i, set())
         if tv != verdict:
-            raise core.Inconclusive("TLC and the python join disagree on %s.%s: TLC %s, python %s" % (pkg, obj, sorted(tv), sorted(verdict)))
-        if not tv:
+            soft.append("TLC and the python join disagree on %s.%s: TLC %s, python %s" % (pkg, obj, sorted(tv), sorted(verdict)))
+        elif not tv:
             agree_n += 1
 
     # ---- failures, coverage
@@ -390,10 +398,10 @@ def run(ctx):
                     vac.append("format %s never judged in %s" % (fmt, lang))
         vac += ["position " + p for p in POSITIONS if per_pos[p] == 0]
         if vac:
-            raise core.Inconclusive("vacuous (never exercised on executable code): %s" % vac)
+            soft.append("vacuous (never exercised on executable code): %s" % vac)
         n_units = sum(1 for u in rendered if u["status"] == "ok" or u.get("py") == "ok")
         if n_units and dropped["default-doc-not-accepted"] > MAX_NOT_ACCEPTED * n_units:
-            raise core.Inconclusive("the reference validators reject FullDefault of %d of %d units" % (dropped["default-doc-not-accepted"], n_units))
+            soft.append("the reference validators reject FullDefault of %d of %d units" % (dropped["default-doc-not-accepted"], n_units))
 
     # ---- binding self-test: a genuine record that holds, then the same with one default's recorded value corrupted
     binding = None
@@ -407,12 +415,16 @@ def run(ctx):
         k = sorted(f["n"] for f in S[obj]["fields"] if pc.has_default(f) or (not with_default and pc.constrained(S, f)))[0]
         bad_go = dict(go[1])
         bad_go[k] = "corrupted-by-selftest"
-        binding = pc.selftest(ctx, batch, lambda tw_: tw_.add_default(pkg, obj, go, py, []), lambda tw_: tw_.add_default(pkg, obj, (True, bad_go), py, []),
-                              "SemanticsPyTrace(Strict) accepts a genuine constructor record (%s.%s) and rejects it once the recorded value of "
-                              "the defaulted field %s is replaced" % (pkg, obj, k))
+        try:
+            binding = pc.selftest(ctx, batch, lambda tw_: tw_.add_default(pkg, obj, go, py, []), lambda tw_: tw_.add_default(pkg, obj, (True, bad_go), py, []),
+                                  "SemanticsPyTrace(Strict) accepts a genuine constructor record (%s.%s) and rejects it once the recorded value of "
+                                  "the defaulted field %s is replaced" % (pkg, obj, k))
+        except core.Inconclusive as e:
+            soft.append(str(e))
     elif not replay:
-        raise core.Inconclusive("no record on which both languages hold every default: binding self-test impossible")
+        soft.append("no record on which both languages hold every default: binding self-test impossible")
 
+    pc.settle(ctx, soft)
     status = collections.Counter(u["status"] for u in batch.units.values())
     n_fields = sum(judged.values())
     cov = {
